@@ -19,33 +19,33 @@ def sequences : List (String × List FOp) := [
   ("npy-datetime", [.mkstemp, .write 128, .flush, .writeDirect 16, .flush, .fsync, .close, .flush, .fsyncDir, .rename]),
   ("npy-compressed", [.mkstemp, .write 2, .write 0, .write 0, .write 1640, .flush, .flush, .fsync, .close, .flush, .fsyncDir, .rename]),
   ("dict-of-arrays", [.mkstemp, .write 2, .write 0, .write 160, .flush, .flush, .fsync, .close, .flush, .fsyncDir, .rename]),
-  ("resave-pack", [.lockGet, .mkstemp, .write 2, .write 0, .write 59, .flush, .flush, .fsync, .close, .flush, .fsyncDir, .other "unlink", .rename, .lockRelease]),
+  ("resave-pack", [.lockGet, .mkstemp, .write 2, .write 0, .write 59, .flush, .flush, .fsync, .close, .flush, .fsyncDir, .rename, .lockRelease]),
   ("packed-overwrite-0", [.mkstemp, .write 2, .write 0, .write 26, .flush, .flush, .fsync, .close, .flush, .fsyncDir, .rename]),
-  ("packed-overwrite-1", [.lockGet, .mkstemp, .write 2, .write 0, .write 36, .flush, .flush, .fsync, .close, .flush, .fsyncDir, .other "unlink", .rename, .lockRelease])]
+  ("packed-overwrite-1", [.lockGet, .mkstemp, .write 2, .write 0, .write 36, .flush, .flush, .fsync, .close, .flush, .fsyncDir, .rename, .lockRelease])]
 def packedOverwritePublishesFirst : Bool := true
 /-- the same writes with their k-th data primitive (write / flush / fsync on the temporary file) reporting an error, for every k: what the real dump() does then -/
 def failingSequences : List (String × List FOp) := [
-  ("pickle-small-fails-at-1-write", [.mkstemp, .failed, .raised]),
-  ("pickle-small-fails-at-2-write", [.mkstemp, .write 2, .write 0, .failed, .raised]),
-  ("pickle-small-fails-at-3-flush", [.mkstemp, .write 2, .write 0, .write 32, .failed, .raised]),
-  ("pickle-small-fails-at-4-flush", [.mkstemp, .write 2, .write 0, .write 32, .flush, .failed, .raised]),
-  ("pickle-small-fails-at-5-fsync", [.mkstemp, .write 2, .write 0, .write 32, .flush, .flush, .failed, .raised]),
-  ("pickle-large-fails-at-1-write", [.mkstemp, .failed, .raised]),
-  ("pickle-large-fails-at-2-write", [.mkstemp, .write 2, .failed, .raised]),
-  ("pickle-large-fails-at-3-write", [.mkstemp, .write 2, .write 34926, .failed, .raised]),
-  ("pickle-large-fails-at-4-write", [.mkstemp, .write 2, .write 34926, .write 23276, .failed, .raised]),
-  ("pickle-large-fails-at-5-flush", [.mkstemp, .write 2, .write 34926, .write 23276, .write 5223, .failed, .raised]),
-  ("pickle-large-fails-at-6-flush", [.mkstemp, .write 2, .write 34926, .write 23276, .write 5223, .flush, .failed, .raised]),
-  ("pickle-large-fails-at-7-fsync", [.mkstemp, .write 2, .write 34926, .write 23276, .write 5223, .flush, .flush, .failed, .raised]),
+  ("pickle-small-fails-at-1-write", [.mkstemp, .failed, .close, .other "unlink", .raised]),
+  ("pickle-small-fails-at-2-write", [.mkstemp, .write 2, .write 0, .failed, .close, .other "unlink", .raised]),
+  ("pickle-small-fails-at-3-flush", [.mkstemp, .write 2, .write 0, .write 32, .failed, .close, .other "unlink", .raised]),
+  ("pickle-small-fails-at-4-flush", [.mkstemp, .write 2, .write 0, .write 32, .flush, .failed, .close, .other "unlink", .raised]),
+  ("pickle-small-fails-at-5-fsync", [.mkstemp, .write 2, .write 0, .write 32, .flush, .flush, .failed, .close, .other "unlink", .raised]),
+  ("pickle-large-fails-at-1-write", [.mkstemp, .failed, .close, .other "unlink", .raised]),
+  ("pickle-large-fails-at-2-write", [.mkstemp, .write 2, .failed, .close, .other "unlink", .raised]),
+  ("pickle-large-fails-at-3-write", [.mkstemp, .write 2, .write 34926, .failed, .close, .other "unlink", .raised]),
+  ("pickle-large-fails-at-4-write", [.mkstemp, .write 2, .write 34926, .write 23276, .failed, .close, .other "unlink", .raised]),
+  ("pickle-large-fails-at-5-flush", [.mkstemp, .write 2, .write 34926, .write 23276, .write 5223, .failed, .close, .other "unlink", .raised]),
+  ("pickle-large-fails-at-6-flush", [.mkstemp, .write 2, .write 34926, .write 23276, .write 5223, .flush, .failed, .close, .other "unlink", .raised]),
+  ("pickle-large-fails-at-7-fsync", [.mkstemp, .write 2, .write 34926, .write 23276, .write 5223, .flush, .flush, .failed, .close, .other "unlink", .raised]),
   ("array-raw-fails-at-1-write", [.mkstemp, .failed, .truncate, .write 2, .write 0, .write 0, .write 4345, .flush, .flush, .fsync, .close, .fsyncDir, .rename]),
   ("array-raw-fails-at-2-write", [.mkstemp, .write 128, .failed, .truncate, .write 2, .write 0, .write 0, .write 4345, .flush, .flush, .fsync, .close, .fsyncDir, .rename]),
   ("array-raw-fails-at-3-flush", [.mkstemp, .write 128, .write 24000, .failed, .truncate, .write 2, .write 0, .write 0, .write 4345, .flush, .flush, .fsync, .close, .fsyncDir, .rename]),
   ("array-raw-fails-at-4-fsync", [.mkstemp, .write 128, .write 24000, .flush, .failed, .truncate, .write 2, .write 0, .write 0, .write 4345, .flush, .flush, .fsync, .close, .fsyncDir, .rename]),
-  ("array-compressed-fails-at-1-write", [.mkstemp, .failed, .raised]),
-  ("array-compressed-fails-at-2-write", [.mkstemp, .write 2, .write 0, .write 0, .failed, .raised]),
-  ("array-compressed-fails-at-3-flush", [.mkstemp, .write 2, .write 0, .write 0, .write 4345, .failed, .raised]),
-  ("array-compressed-fails-at-4-flush", [.mkstemp, .write 2, .write 0, .write 0, .write 4345, .flush, .failed, .raised]),
-  ("array-compressed-fails-at-5-fsync", [.mkstemp, .write 2, .write 0, .write 0, .write 4345, .flush, .flush, .failed, .raised]),
+  ("array-compressed-fails-at-1-write", [.mkstemp, .failed, .close, .other "unlink", .raised]),
+  ("array-compressed-fails-at-2-write", [.mkstemp, .write 2, .write 0, .write 0, .failed, .close, .other "unlink", .raised]),
+  ("array-compressed-fails-at-3-flush", [.mkstemp, .write 2, .write 0, .write 0, .write 4345, .failed, .close, .other "unlink", .raised]),
+  ("array-compressed-fails-at-4-flush", [.mkstemp, .write 2, .write 0, .write 0, .write 4345, .flush, .failed, .close, .other "unlink", .raised]),
+  ("array-compressed-fails-at-5-fsync", [.mkstemp, .write 2, .write 0, .write 0, .write 4345, .flush, .flush, .failed, .close, .other "unlink", .raised]),
   ("array-object-fails-at-1-write", [.mkstemp, .failed, .truncate, .write 2, .write 0, .write 0, .write 213, .flush, .flush, .fsync, .close, .fsyncDir, .rename]),
   ("array-object-fails-at-2-write", [.mkstemp, .write 128, .failed, .truncate, .write 2, .write 0, .write 0, .write 213, .flush, .flush, .fsync, .close, .fsyncDir, .rename]),
   ("array-object-fails-at-3-flush", [.mkstemp, .write 128, .write 162, .failed, .truncate, .write 2, .write 0, .write 0, .write 213, .flush, .flush, .fsync, .close, .fsyncDir, .rename]),
